@@ -8,6 +8,7 @@ CONSTANTS
   MaxCum = 0
   Steps = {1}
   Outcomes = {}
+  ZeroReports = "keys"
   RetryFailed = TRUE
   Faithful = TRUE
 INVARIANTS TypeOK AppliedIsInForce FailedIsRefused EffectiveInForce Conservation NoDoubleCount StopUnhealthy
